@@ -178,9 +178,14 @@ func c05(c *core.Ctx, r *core.Report) {
 				return "C05.R1b"
 			case "failure-propagates":
 				return "C05.R2"
+			case "expose-iff-condition":
+				// "exactly once per start": a singleton in creation that is asked for again is answered with its early
+				// reference - for every singleton, whatever it declares - and not created a second time
+				return "C05.R13"
 			}
 			return ""
-		}, "exposer-table@"+core.FnName(ex), map[string]string{"stage-order": exposerRows["stage-order"], "failure-propagates": exposerRows["failure-propagates"]})
+		}, "exposer-table@"+core.FnName(ex), map[string]string{"stage-order": exposerRows["stage-order"], "failure-propagates": exposerRows["failure-propagates"], "expose-iff-condition": exposerRows["expose-iff-condition"]})
+	exposureStructure(c, r, l, "C05.R13", "C05.R13")
 	}
 
 	// ---- R1(c), R1(d), R3 and the initialization half of R2: decision table of the initialization function
